@@ -366,7 +366,7 @@ func main() {
 	legacyStream(r, run.Scale(60, 3000))
 	modeStream(r, run.Scale(1, 40))
 	plainStream(r, run.Scale(60, 5000))
-	n := run.Scale(600, 60000)
+	n := run.Scale(600, 48000)
 	for i := 0; i < n; i++ {
 		runHistory(genHistory(r, 10))
 	}
@@ -432,10 +432,10 @@ func checkFloors() []string {
 	need("stream:legacy-get", run.Scale(60, 3000))
 	need("stream:plain-vs-memory", run.Scale(60, 5000))
 	need("ref:memory-store", run.Scale(60, 5000))
-	need("init:doc", run.Scale(400, 40000))
+	need("init:doc", run.Scale(400, 33000))
 	need("put:entry-bytes-compared", run.Scale(800, 80000))
-	need("file-bytes:histories-compared", run.Scale(500, 50000))
-	need("file-bytes:read-by-model", run.Scale(500, 50000))
+	need("file-bytes:histories-compared", run.Scale(500, 40000))
+	need("file-bytes:read-by-model", run.Scale(500, 40000))
 	need("init:unparseable-but-loaded", run.Scale(2, 100))
 	need("init:symlinked-path", run.Scale(20, 2000))
 	need("store:disable-put", run.Scale(10, 1000))
